@@ -1,4 +1,5 @@
 import TensorModel.Proofs.Kernels
+import TensorModel.Proofs.MinMax
 import TensorModel.Proofs.CoreEq
 /-!
   C06 — elementwise arithmetic is coordinate-wise, in operand order, layout-blind.
@@ -361,16 +362,17 @@ theorem eCmp_refuses (st : St) (a b r : Win) (f : BinF)
     eCmp st a b r f = .error (.err "retVal is a scalar") :=
   TM.eCmp_refuses st a b r f h hr
 
-/-- `E.OpIncr`: all four branches. The scalar-scalar branch first runs the *in-place* kernel on the
-    operands and then adds operand `a` (now holding the result) into `incr`. -/
+/-- `E.OpIncr`: all four branches. The scalar-scalar branch computes `fv a0 b0` aside (in a temporary of the Go code)
+    and adds it to every cell of `incr`; the operands are not written (finding F32, repaired). -/
 theorem eOpIncr_dispatch (st : St) (a b incr : Win) (f fv : BinF) :
     eOpIncr st a b incr f fv =
       if ((a.len = 1 ∧ b.len ≠ 1) ∨ (b.len = 1 ∧ a.len ≠ 1)) ∧ incr.len = 1 then
         .error (.err "Cannot increment on scalar increment")
       else if a.len = 1 ∧ b.len = 1 then (do
-        let s ← kVV st a b fv
-        if incr.len ≠ 1 then eOp s incr a (fun x y => .app2 "add" x y)
-        else s.wr incr 1 0 (accAdd (← s.rd incr 1 0) (← s.rd a 1 0)))
+        let a0 ← st.rd a 1 0
+        let b0 ← st.rd b 1 0
+        if incr.len ≠ 1 then kVS st incr (fv a0 b0) accAdd
+        else do st.wr incr 1 0 (accAdd (← st.rd incr 1 0) (fv a0 b0)))
       else if a.len = 1 then (do kIncrSV st (← st.rd a 1 0) b incr f accAdd)
       else if b.len = 1 then (do kIncrVS st a (← st.rd b 1 0) incr f accAdd)
       else kIncrVV st a b incr fv accAdd := by
@@ -390,23 +392,31 @@ theorem eOpIncr_dispatch (st : St) (a b incr : Win) (f fv : BinF) :
   · simp only [ha, hb, and_self, if_false, false_and, or_self]
     exact eOpIncr_VV st a b incr f fv ha hb
 
-/-- Known defect F32, stated as what the model (= the Go code) does: with two length-one operands,
-    `E.OpIncr` overwrites the FIRST OPERAND with `fv a0 b0` and adds that value to every cell of `incr`;
-    nothing else changes. -/
-theorem eOpIncr_scalars_overwrite_operand (st : St) (a b incr : Win) (f fv : BinF)
-    (ha : a.len = 1) (hb : b.len = 1) (hab : a.buf ≠ b.buf) (hia : incr.buf ≠ a.buf) (hcap : 1 ≤ b.cap)
+/-- **`WithIncr` with two length-one operands** (finding F32, repaired — unguarded: no aliasing hypothesis, the operands
+    may share their cell with each other or with the increment): `E.OpIncr` adds `fv a0 b0` to every cell of `incr`
+    and changes no cell outside the window of `incr` — in particular it does not write its operands. -/
+theorem eOpIncr_scalars (st : St) (a b incr : Win) (f fv : BinF)
+    (ha : a.len = 1) (hb : b.len = 1)
     (hA : InBuf st a.buf a.off 1) (hB : InBuf st b.buf b.off 1) (hI : InBuf st incr.buf incr.off incr.len) :
     ∃ st' a0 b0, cell st a.buf a.off = some a0 ∧ cell st b.buf b.off = some b0 ∧
       eOpIncr st a b incr f fv = .ok st' ∧ st'.mheap = st.mheap ∧
-      cell st' a.buf a.off = some (fv a0 b0) ∧
       (∀ i, i < incr.len → ∃ r, cell st incr.buf (incr.off + i) = some r ∧
         cell st' incr.buf (incr.off + i) = some (.app2 "add" r (fv a0 b0))) ∧
-      (∀ b' k, b' ≠ incr.buf → (b' ≠ a.buf ∨ k ≠ a.off) → cell st' b' k = cell st b' k) := by
-  obtain ⟨st', h, hm, hva, hvi, hfr⟩ := eOpIncr_SS_spec st a b incr f fv ha hb hab hia hcap hA.has hB.has hI.has
+      (∀ b' k, (b' ≠ incr.buf ∨ k < incr.off ∨ incr.off + incr.len ≤ k) → cell st' b' k = cell st b' k) := by
+  obtain ⟨st', h, w⟩ := eOpIncr_SS_spec st a b incr f fv ha hb hA.has hB.has hI.has
   refine ⟨st', _, _, cell_some_cellD (by simpa using hA.has 0 (by omega)),
-    cell_some_cellD (by simpa using hB.has 0 (by omega)), h, hm, hva, ?_, hfr⟩
+    cell_some_cellD (by simpa using hB.has 0 (by omega)), h, w.mheap, ?_, w.frame⟩
   intro i hi
-  exact ⟨_, cell_some_cellD (hI.has i hi), hvi i hi⟩
+  exact ⟨_, cell_some_cellD (hI.has i hi), w.val i hi⟩
+
+/-- the operands keep their elements when they lie outside the increment's window -/
+theorem eOpIncr_scalars_operands_kept (st : St) (a b incr : Win) (f fv : BinF)
+    (ha : a.len = 1) (hb : b.len = 1) (hia : incr.buf ≠ a.buf) (hib : incr.buf ≠ b.buf)
+    (hA : InBuf st a.buf a.off 1) (hB : InBuf st b.buf b.off 1) (hI : InBuf st incr.buf incr.off incr.len) :
+    ∃ st', eOpIncr st a b incr f fv = .ok st' ∧ cell st' a.buf a.off = cell st a.buf a.off ∧
+      cell st' b.buf b.off = cell st b.buf b.off := by
+  obtain ⟨st', _, _, _, _, h, _, _, hfr⟩ := eOpIncr_scalars st a b incr f fv ha hb hA hB hI
+  exact ⟨st', h, hfr _ _ (Or.inl hia.symm), hfr _ _ (Or.inl hib.symm)⟩
 
 /-! ## 4. the engine method on the raw path (safe mode, no options) -/
 
@@ -514,6 +524,31 @@ theorem kIterVV_coordinatewise (st : St) (a b : Win) (f : BinF) (pa pb : AP) (hs
   have h2 := hob (dot c pb.strides) (by rw [eb, ← hsh]; exact List.mem_map.mpr ⟨c, hc, rfl⟩)
   exact ⟨_, _, cell_some_cellD (hA.has.at h1.1 h1.2), cell_some_cellD (hB.has.at h2.1 h2.2), hv c hc⟩
 
+/-! ## 6. elementwise minimum / maximum (`MinBetween`, `MaxBetween`) -/
+
+/-- **Safe mode**, raw path: a fresh tensor of the operand's element type, shape **and data order** (the default
+    strides of that order — finding F36, repaired: the operands being stored in that same order, cell `i` of the result
+    and cell `i` of the operands hold the same coordinate) whose cell `i` is `op a[i] b[i]` (`op` = `minb` / `maxb`);
+    operands, every pre-existing buffer and the mask heap are untouched. No hypothesis on the operands' data order. -/
+theorem engMMVV_safe (st : St) (op : String) (a b : Dense)
+    (hsh : shapeEq a.shape b.shape = true) (hdt : a.dt = b.dt) (hord : a.dt ∈ ordTypes)
+    (hia : a.requiresIterator = false) (hib : b.requiresIterator = false) (hso : sameOrd a b = true)
+    (hlen : a.win.len = b.win.len) (hcap : a.win.len ≤ b.win.cap) (hsz : a.win.len = denseLen a.shape)
+    (hA : InBuf st a.win.buf a.win.off a.win.len) (hB : InBuf st b.win.buf b.win.off a.win.len) :
+    ∃ out r, engMMVV st op a b {} = .ok out ∧ out.ret = .fresh r ∧ out.reuse = none ∧
+      r.dt = a.dt ∧ r.ap.shape = a.shape ∧ r.ap.strides = Dense.defaultStrides a.ap.o.col a.shape ∧
+      r.ap.o.col = a.ap.o.col ∧
+      r.win = ⟨st.heap.size, 0, denseLen a.shape, denseLen a.shape⟩ ∧
+      out.st.mheap = st.mheap ∧
+      (∀ i, i < a.win.len → ∃ x y, cell st a.win.buf (a.win.off + i) = some x ∧
+        cell st b.win.buf (b.win.off + i) = some y ∧ cell out.st r.win.buf i = some (.app2 op x y)) ∧
+      (∀ b' k, b' < st.heap.size → cell out.st b' k = cell st b' k) := by
+  obtain ⟨st', h, hm, hv, hfr⟩ := engMMVV_safe' st op a b ⟨by simpa using hord, hdt, hsh⟩ hia hib hso
+    hlen hcap hsz hA hB
+  refine ⟨_, _, h, rfl, rfl, rfl, rfl, rfl, rfl, rfl, hm, ?_, hfr⟩
+  intro i hi
+  exact ⟨_, _, cell_some_cellD (hA.has i hi), cell_some_cellD (hB.has i hi), hv i hi⟩
+
 /-! ## non-vacuity: every hypothesis set above is satisfied by a small concrete state -/
 namespace Ex
 
@@ -564,7 +599,10 @@ example := eOp_scalar_right st wa ws f f (.src 3 0) (by decide) rfl
 example := eOpIter_scalar_left st ws wb f f [] ib (.src 3 0) (by decide) rfl
 example := eOpIter_scalar_right st wa ws f f ia [] (.src 3 0) (by decide) rfl
 example := eCmp_refuses st ws wb ws' f (Or.inl (by decide)) rfl
-example := eOpIncr_scalars_overwrite_operand st ws ws' wr f f rfl rfl (by decide) (by decide) (by decide) inS inS' inR
+example := eOpIncr_scalars st ws ws' wr f f rfl rfl inS inS' inR
+example := eOpIncr_scalars_operands_kept st ws ws' wr f f rfl rfl (by decide) (by decide) inS inS' inR
+/-- the increment may be the first operand itself: `a += a op b`, computed from the old `a` -/
+example := eOpIncr_scalars st ws ws' ws f f rfl rfl inS inS' inS
 example := engArithVV_safe_raw st "add" ta tb (by decide) rfl (by decide) (by decide) (by decide) (by decide)
   (by decide) rfl rfl (by decide) inA inB
 /-- the window well-formedness hypothesis `hcap` (`len ≤ cap`) cannot be dropped: the kernel re-slices
@@ -585,6 +623,12 @@ example : (FlatIt.offsets tT.ap, FlatIt.offsets tb.ap) = ([0, 2, 1, 3], [0, 1, 2
 example : ∃ out, engArithVV st "add" numberTypes tT tb {} = .ok out ∧
     cell out.st 5 2 = some (.app2 "add" (.src 0 2) (.src 1 1)) := ⟨_, rfl, rfl⟩
 
+-- elementwise minimum of two column-major operands: a column-major result, cell by cell
+def tac : Dense := { ta with ap := { ta.ap with strides := calcStridesCol ta.ap.shape, o := { col := true } } }
+def tbc : Dense := { tb with ap := { tb.ap with strides := calcStridesCol tb.ap.shape, o := { col := true } } }
+example := engMMVV_safe st "minb" tac tbc (by decide) rfl (by decide) (by decide) (by decide) (by decide) rfl (by decide)
+  (by decide) inA inB
+example : ∃ out r, engMMVV st "minb" tac tbc {} = .ok out ∧ out.ret = .fresh r ∧ r.ap.o.col = true := ⟨_, _, rfl, rfl, rfl⟩
 end Ex
 
 /-! ## the source of the shape test of `binaryCheck` -/
